@@ -190,8 +190,22 @@ def l_r3_datetime(p: Project, rep: Report):
         if h is None:
             continue
         rps, _ = h.return_paths()
+        from .fold import fold as _fold
+
         for k, (pth, rtxt, sc) in enumerate(rps):
             ok = rtxt.startswith(f"format_datetime('{fmt}', ")
+            if not ok and rtxt.startswith("format_datetime("):
+                # the format given by a module-level constant
+                try:
+                    call = ast.parse(rtxt, mode="eval").body
+                    got = _fold(call.args[0], {}, p, TYPES) if isinstance(call, ast.Call) and call.args else None
+                except SyntaxError:
+                    got = None
+                if got == fmt:
+                    ok = True
+                elif not isinstance(got, str):
+                    rep.note(f"L-R3 undecided: {name} is written as {rtxt[:70]}")
+                    continue
             rep.check("L-R3", f"{name}.unconvert[{nk}]:return#{k}", ok, f"{name} is written as {rtxt[:70]}; expected format_datetime('{fmt}', <value>)" if not ok else "", tloc(p, h.fn))
     fd0 = p.get_function(TYPES, "format_datetime").node
     fd = canon.formats_to_fstrings(flat(p, TYPES, fd0))
